@@ -6,7 +6,7 @@ edge is replayed on the real Framed over a scripted AsyncRead.  A fourth codec "
 stateful: its decode_eof yields one "end" frame on the EMPTY buffer, so end-of-stream frames that do not come
 from buffered bytes are covered (streams ending exactly on a frame boundary, the empty stream).  Verdicts:
   * VIOLATION only if the items observed on the real code contradict the property (TLC, FramedReadTrace in
-    predicate mode: C13_Frames / C13_Prefix / C13_IoErrSurfaced / C13_NoPanic on the observed items);
+    predicate mode: C13_Frames / C13_Prefix / C13_ErrAfterFrames / C13_IoErrSurfaced / C13_NoPanic on the observed items);
   * a per-poll difference from the spec that keeps the property (strict mode rejects, predicate mode accepts)
     is printed as DRIFT and recorded, exit code unaffected.
 Long streams (20-64 KiB, reads up to 9000 bytes) are judged by the driver's reference frames(), which is
@@ -134,8 +134,20 @@ def run_long(ctx, n, only=None):
     return summ, vlib.read_ndjson(tfile)
 
 
+def selftest(ctx):
+    """Vacuity guard for C13_ErrAfterFrames (no model variant produces it): a synthetic history in which the error item
+    overtakes two complete frames must be rejected by TLC in predicate mode with exactly that predicate."""
+    run = [{"ev": "reset", "run": 0, "input": [1, 5, 1, 6]},
+           {"ev": "poll", "run": 0, "io": [{"a": "data", "k": 4}, {"a": "err", "k": 0}], "res": {"k": "ioerr", "v": []}, "pos": 4}]
+    _acc, rej = vlib.validate_runs(TMOD, "Trace_C13_lp_pred.cfg", [run], ctx.workdir, tag="c13-selftest", max_rejects=1)
+    if not rej or rej[0][2] != "C13_ErrAfterFrames":
+        raise vlib.ToolError("selftest: TLC did not reject an error item that overtakes complete frames (%s)" % (rej,))
+    ctx.cov["neg_configs_rejected"].append({"cfg": "synthetic history (error item before two complete frames)", "violated": "C13_ErrAfterFrames"})
+
+
 def run(ctx):
     vlib.cargo_build(["vcodec"])
+    selftest(ctx)
     scheds = []
     for codec in CODECS:
         scheds += build_schedules(ctx, codec)
